@@ -17,11 +17,18 @@ open Ural.Py Ural
 def isDotSeg (s : Str) : Bool := s = ['.'] || s = ['.', '.']
 
 /-- the characters of a path-borne field for which the round trip is proved: anything but the
-url delimiters `/ ? #`, the params delimiter `;` and white space -/
-def segChar (c : Char) : Bool := c ≠ '/' && c ≠ '?' && c ≠ '#' && c ≠ ';' && !isSpace c
+url delimiters `/ ? #`, the params delimiter `;` and TAB CR LF (which `urlsplit` deletes) -/
+def segChar (c : Char) : Bool := c ≠ '/' && c ≠ '?' && c ≠ '#' && c ≠ ';' && !isUnsafeUrlChar c
 
-/-- a path segment the round trip is proved for: not empty, made of `segChar`s, not `.`/`..` -/
-def segOk (s : Str) : Bool := !s.isEmpty && s.all segChar && !isDotSeg s
+/-- `s` starts with white space (`str.isspace`) -/
+def blankHead (s : Str) : Bool := s.head?.any isSpace
+
+/-- `s` ends with white space (`str.isspace`) -/
+def blankLast (s : Str) : Bool := s.getLast?.any isSpace
+
+/-- a path segment the round trip is proved for: not empty, made of `segChar`s, not `.`/`..`, no
+white space at either end (white space *inside* is fine) -/
+def segOk (s : Str) : Bool := !s.isEmpty && s.all segChar && !isDotSeg s && !blankHead s && !blankLast s
 
 /-- the characters of a query-borne field for which the round trip is proved: anything but
 `&` (item separator), `#`, `+` and `%` (decoded by `parse_qs`), TAB, CR, LF (deleted by
@@ -57,9 +64,11 @@ def postGroupOk (g id : Str) : Bool :=
 def groupOk (g : Str) : Bool := segOk g && noWatch g
 
 /-- `FacebookPhoto(id, parent_id=p | parent_handle=p, album_id=aid)`: the album id is not empty
-(the parser returns `None` on an empty one); it may contain `a.` — only the prefix is removed -/
+(the parser returns `None` on an empty one) and does not end with white space (it ends the
+segment `a.<album>`); it may contain `a.` — only the prefix is removed -/
 def photoPathOk (p aid id : Str) : Bool :=
-  segOk p && segOk id && !aid.isEmpty && aid.all segChar && noWatch p && noWatch id && decide (p ≠ lit "videos")
+  segOk p && segOk id && !aid.isEmpty && aid.all segChar && !blankLast aid && noWatch p && noWatch id &&
+    decide (p ≠ lit "videos")
 
 /-- `None`, or a good query value -/
 def optQvalOk (o : Option Str) : Bool :=
@@ -73,11 +82,11 @@ def photoQueryOk (id : Str) (gid aid : Option Str) : Bool := qvalOk id && optQva
 /-- the records for which the round trip is proved, shape by shape (all hypotheses are
 decidable and spelled out in `Lemmas/FacebookShapes.lean`):
 
-* a field that ends up in the *path* of the url is `segOk`: not empty, without `/ ? # ;` and
-  white space, not `.` / `..`; it must not start with `watch` (nor, for a handle, with
-  `people`, nor end with `.php`), must not be a route word that an earlier route of the parser
-  tests (`videos`, `photos`, `groups` where relevant); an album id is not empty, without
-  `/ ? # ;` and white space;
+* a field that ends up in the *path* of the url is `segOk`: not empty, without `/ ? # ;` TAB CR
+  LF, without white space at its ends, not `.` / `..`; it must not start with `watch` (nor, for
+  a handle, with `people`, nor end with `.php`), must not be a route word that an earlier route
+  of the parser tests (`videos`, `photos`, `groups` where relevant); an album id is not empty,
+  without `/ ? # ;` TAB CR LF, without white space at its end;
 * a field that ends up in the *query* is `qvalOk`: not empty, without `& # + %`, TAB, CR, LF;
 * ids and handles are told apart by `is_facebook_id`, as the parser does;
 * only the field combinations the parser produces (`Shaped`). -/
@@ -113,9 +122,11 @@ def reparsable : Parsed → Bool
         | _, _ => false)
      | some _, some _ => false)
 
-/-- the characters of a path-borne field are ordinary: no `/ ? # ;`, no white space, and the
-field is not a dot segment.  (Nothing about emptiness: the parser never returns an empty one.) -/
-def segChars (s : Str) : Bool := s.all segChar && !isDotSeg s
+/-- a path-borne field that `urljoin` rebuilds verbatim: no `;` (an empty `;params` is dropped),
+not a dot segment (resolved).  Nothing else: that the field is not empty, has no white space at
+its ends, no `/ ? #` and no TAB CR LF is *derived* for what the parser returns
+(`parsed_fields_nonempty`, `parsed_path_fields_clean`). -/
+def segChars (s : Str) : Bool := !s.contains ';' && !isDotSeg s
 
 /-- the characters of a query-borne field are ordinary: no `& # + %` TAB CR LF -/
 def qvalChars (s : Str) : Bool := s.all qvalChar
@@ -127,13 +138,14 @@ def optQvalChars (o : Option Str) : Bool :=
   | some s => qvalChars s
 
 /-- **the residual hypothesis of the round trip of what the parser returns**
-(`Ural.Props.C19.Facebook.reparse_of_parse_partial`), purely about characters: every field that
-goes to the *path* of the canonical url is made of characters other than `/ ? # ;` and white
-space and is not `.` / `..` (`urljoin` resolves dot segments, `;` starts the params that `urljoin`
-drops when empty, a blank is stripped by `pathsplit`); every field that goes to its *query* is
-made of characters other than `& # + %` TAB CR LF (`parse_qs` decodes `+ %`, splits at `&`,
-`urlsplit` deletes TAB CR LF and cuts at `#`).  Which fields go where depends on the shape of
-the record; a record with a field combination the parser never returns is outside. -/
+(`Ural.Props.C19.Facebook.reparse_of_parse_partial`): only the characters that the builders do not
+escape and that `urljoin` / `urlsplit` / `parse_qs` read as syntax — every field that goes to the
+*path* of the canonical url has no `;` (`urljoin` drops an empty `;params`) and is not `.` / `..`
+(`urljoin` resolves dot segments); every field that goes to its *query* has no `& # + %` TAB CR LF
+(`parse_qs` decodes `+ %` and splits at `&`, `urlsplit` cuts at `#` and deletes TAB CR LF — a
+query value can hold any of them, decoded from an escape).  Each really fails
+(`excluded_shapes_fail`).  Which fields go where depends on the shape of the record; a record
+with a field combination the parser never returns is outside. -/
 def charsOk : Parsed → Bool
   | .user id h => h.isNone && qvalChars id
   | .handle h => segChars h
@@ -158,11 +170,11 @@ def charsOk : Parsed → Bool
      | none, none => qvalChars id && optQvalChars gid && optQvalChars aid
      | some p, none =>
        (match gid, aid with
-        | none, some a => segChars p && segChars id && a.all segChar
+        | none, some a => segChars p && segChars id && !a.contains ';'
         | _, _ => false)
      | none, some p =>
        (match gid, aid with
-        | none, some a => segChars p && segChars id && a.all segChar
+        | none, some a => segChars p && segChars id && !a.contains ';'
         | _, _ => false)
      | some _, some _ => false)
 
